@@ -233,7 +233,7 @@ func c07Controller(ctx *Ctx) {
 
 func init() {
 	register("C07", func(ctx *Ctx) {
-		n := ctx.N(1600, 40000)
+		n := ctx.N(6000, 60000)
 		for k := 0; k < n; k++ {
 			if k%4 == 3 {
 				c07Controller(ctx)
